@@ -248,7 +248,7 @@ func childMain(t *testing.T, specPath string) {
 		t.Fatalf("child: bad spec %s: %v", specPath, err)
 	}
 	// hard cap on the address space: an allocation storm kills this child only.
-	lim := uint64(5 << 30)
+	lim := uint64(3 << 30)
 	_ = syscall.Setrlimit(syscall.RLIMIT_AS, &syscall.Rlimit{Cur: lim, Max: lim})
 
 	res := &childResult{Obs: map[string]int64{}, Max: map[string]int64{}, Sigs: map[string]int64{}, Next: spec.Lo, Watchdog: -1}
@@ -356,6 +356,7 @@ func childMain(t *testing.T, specPath string) {
 		}
 		curCase.Store(-1)
 		if o.Leak != nil {
+			res.Obs["abandoned_evaluation_stack_events"] += int64(o.Leaks)
 			res.Obs["violating_cases"]++
 			if len(res.Violations) < 40 {
 				res.Violations = append(res.Violations, childViol{Sig: o.Leak.Sig, CaseID: id, Detail: o.Leak.Detail, Witness: witnessOf(spec.Workload, idx, &c, &m, o.Leak)})
@@ -448,8 +449,8 @@ func TestCheck(t *testing.T) {
 		"and non-trivial when at least one instruction completed and was followed by the structural walk.")
 	defer run.Finish()
 	run.Assume("exported getters (Istack, Estack, Context.*Slot, stackitem Value()) expose the real VM state; the item counter and try depth are read through the verif-tagged hooks VerifRefs / VerifTryDepth")
-	run.Assume("interop-free scripts on a bare vm.VM: SYSCALL / CALLT fault (exercised by C04/C16); one script per VM")
-	run.Assume("a Go panic is recovered in-process and reported; a process-fatal error (stack exhaustion, OOM under the 5 GiB address-space cap) kills only the child and is attributed through the case file written before execution")
+	run.Assume("scripts run on a bare vm.VM without chain interops (CALLT faults; interops are exercised by C04/C16); the only SYSCALL is the harness loader that creates nested script contexts with the exported vm.Load* API the way System.Contract.Call / System.Runtime.LoadScript do")
+	run.Assume("a Go panic is recovered in-process and reported; a process-fatal error (stack exhaustion, OOM under the 3 GiB address-space cap) kills only the child and is attributed through the case file written before execution")
 	run.Assume("the item being thrown while a finally block runs is held outside stacks and slots and is not part of the walk (nor of the VM counter)")
 	run.Assume("the executed-offset clause is evaluated on scripts accepted by scparser.IsScriptCorrect(script, nil); boundaries come from an independent linear decode plus the implicit RET at len(script)")
 
@@ -512,7 +513,7 @@ func TestCheck(t *testing.T) {
 	batchTimeout := time.Duration(ev.Pick(600, 1500)) * time.Second
 
 	var mu sync.Mutex
-	sigs := map[string]int64{}
+	sigs := map[uint64]int64{}
 	var trivial int64
 	samples := map[string][]any{}
 	var ops [256]int64
@@ -529,7 +530,9 @@ func TestCheck(t *testing.T) {
 			run.ObsMax(k, v)
 		}
 		for k, v := range r.Sigs {
-			sigs[k] += v
+			if h, err := strconv.ParseUint(k, 16, 64); err == nil {
+				sigs[h] += v
+			}
 		}
 		trivial += r.Trivial
 		for i, n := range r.Ops {
@@ -691,7 +694,7 @@ func TestCheck(t *testing.T) {
 		}
 	}
 	for s, n := range sigs {
-		run.CaseN(s, true, n)
+		run.CaseN(strconv.FormatUint(s, 16), true, n)
 	}
 	if trivial > 0 {
 		run.CaseN("trivial", false, trivial)
